@@ -136,6 +136,35 @@ def restoreCore (src dst info : Except Errno CPath) : Prog Res :=
   | .error er, _ => pure (.error er)
   | _, .error er => pure (.error er)
 
+/-- `os.mkdir(name, mode)` on a path string: the kernel resolves the string (final symlink not
+    followed; a missing or non-directory intermediate component is `ENOENT`/`ENOTDIR` also when a
+    `..` follows it) and makes the directory at the canonical path; a string whose last component
+    is `.` or `..` denotes an existing directory, whence `EEXIST`. -/
+def mkdirStr (cwd : CPath) (name : Bytes) (mode : Nat) : Prog Res :=
+  atPath cwd name (fun er => pure (.error er)) fun p => sys (.mkdir p mode)
+
+/-- the `(head, tail)` `os.makedirs` works with: `split(name)`, once more on the head when the
+    tail is empty -/
+def makedirsSplit (name : Bytes) : Bytes × Bytes :=
+  if (psplit name).2 = [] then psplit (psplit name).1 else psplit name
+
+/-- `os.makedirs(name, mode)` (CPython 3.12, `exist_ok=False`) on the path STRING: the head is made
+    first (default mode) when it does not exist, a `FileExistsError` of that is swallowed, a tail
+    `.` ends the work there, and `mkdir(name)` is issued on the string as it is spelled — so
+    `x/gone/..` creates `x/gone` and then fails with `EEXIST`.  Fuel: the length of the string. -/
+def makedirsStr (cwd : CPath) : Nat → Bytes → Nat → Prog Res
+  | 0, name, mode => mkdirStr cwd name mode
+  | fuel+1, name, mode => do
+    let fs ← read
+    let head := (makedirsSplit name).1
+    let tail := (makedirsSplit name).2
+    if head ≠ [] ∧ tail ≠ [] ∧ ¬ pExists fs cwd head then
+      match ← makedirsStr cwd fuel head 0o777 with
+      | .error .EEXIST => if tail = [dot] then pure (.ok ()) else mkdirStr cwd name mode
+      | .error er => pure (.error er)
+      | .ok () => if tail = [dot] then pure (.ok ()) else mkdirStr cwd name mode
+    else mkdirStr cwd name mode
+
 /-- `Restorer.restore_trashed_file` -/
 def restoreOne (cwd : CPath) (overwrite : Bool) (e : Entry) : Prog Res := do
   let fs ← read
@@ -146,23 +175,31 @@ def restoreOne (cwd : CPath) (overwrite : Bool) (e : Entry) : Prog Res := do
     let mk ← (if pIsdir fs cwd parentStr then pure (.ok ())
               else match danglingOnPath fs cwd parentStr with
                    | some er => pure (.error er)      -- a dangling link on the way: nothing can be created through it
-                   | none => makedirs (dirC fs cwd parentStr).length (dirC fs cwd parentStr) 0o777)
+                   | none =>
+                     -- `os.makedirs` works on the string: with a `.`/`..` component behind a missing
+                     -- one it differs from making the directories at the canonical path
+                     if hasDotComp parentStr then makedirsStr cwd parentStr.length parentStr 0o777
+                     else makedirs (dirC fs cwd parentStr).length (dirC fs cwd parentStr) 0o777)
     match mk with
     | .error er => pure (.error er)
     | .ok () =>
       let fs ← read
-      -- --overwrite: an existing non-directory (a symlink to a directory included) is removed first,
-      -- but only when the payload is there to take its place
-      let cleared ← (if overwrite ∧ pLexists fs cwd (pathOfBackupCopy e.info) ∧ pLexists fs cwd e.loc ∧
-                        (pIslink fs cwd e.loc ∨ ¬ pIsdir fs cwd e.loc) then
-                       atPath cwd e.loc (fun er => pure (.error er)) fun p => removeFile p
-                     else pure (.ok ()))
-      match cleared with
-      | .error er => pure (.error er)
-      | .ok () =>
-        let fs ← read
-        let payloadStr := pathOfBackupCopy e.info
-        restoreCore (resolve fs cwd payloadStr) (resolve fs cwd e.loc) (resolve fs cwd e.info)
+      -- the destination is looked at again once its parent directories exist: a location like
+      -- `a/missing/../x` names an existing file only after `missing` was made
+      if ¬ overwrite ∧ pLexists fs cwd e.loc then pure (.error .EEXIST)
+      else
+        -- --overwrite: an existing non-directory (a symlink to a directory included) is removed first,
+        -- but only when the payload is there to take its place
+        let cleared ← (if overwrite ∧ pLexists fs cwd (pathOfBackupCopy e.info) ∧ pLexists fs cwd e.loc ∧
+                          (pIslink fs cwd e.loc ∨ ¬ pIsdir fs cwd e.loc) then
+                         atPath cwd e.loc (fun er => pure (.error er)) fun p => removeFile p
+                       else pure (.ok ()))
+        match cleared with
+        | .error er => pure (.error er)
+        | .ok () =>
+          let fs ← read
+          let payloadStr := pathOfBackupCopy e.info
+          restoreCore (resolve fs cwd payloadStr) (resolve fs cwd e.loc) (resolve fs cwd e.info)
 
 def restoreMany (cwd : CPath) (overwrite : Bool) : List Entry → Prog Res
   | [] => pure (.ok ())
